@@ -257,6 +257,112 @@ fn snapshot(prog: &[S], lay: &Layout) -> Result<Snapshot, String> {
     }
 }
 
+// ---------------------------------------------------------------- token sequences under two trivia layouts
+//
+// Layout invariance does not depend on the program being valid: the same tokens separated by
+// blanks or by comments must be parsed into the same tree shape, get the same syntax-error status,
+// and - when clean - the same graph.  (A re-layout of valid programs alone never separates two
+// punctuation characters that would be a syntax error when separated by a blank.)
+
+const TOK_EXTRA: &[&str] = &["ns", "im", "dt", "b", "q", "0x1F", "2", "3", "x", "true", "pi", "$1", "\"1_0\"", "'01'", "1e3", "2.", ".5"];
+const TOK_SEPS_B: &[&str] = &["/**/", " /* c */ ", "\n", "\t", "  ", "/* a *//* b */", "//x\n", " /***/ ", "/*/ y */"];
+
+fn tok_alphabet() -> Vec<String> {
+    let mut v: Vec<String> = super::c01::full_alphabet()
+        .iter()
+        // not the line-oriented lexemes (a pragma runs to the end of its line by definition)
+        .filter(|t| !t.ends_with('\n') && !t.starts_with("OPENQASM") && t.as_str() != "§" && t.as_str() != "#" && t.as_str() != "pragma")
+        .cloned()
+        .collect();
+    v.extend(TOK_EXTRA.iter().map(|s| s.to_string()));
+    v
+}
+
+fn tree_skeleton(text: &str) -> (Vec<String>, usize) {
+    let p = oq3_syntax::SourceFile::parse(text);
+    let mut out = Vec::new();
+    for ev in p.syntax_node().preorder_with_tokens() {
+        if let oq3_syntax::WalkEvent::Enter(el) = ev {
+            if el.kind().is_trivia() {
+                continue;
+            }
+            match el {
+                oq3_syntax::NodeOrToken::Node(n) => out.push(format!("{:?}", n.kind())),
+                oq3_syntax::NodeOrToken::Token(t) => out.push(format!("{:?}:{}", t.kind(), t.text())),
+            }
+        }
+    }
+    (out, p.errors().len())
+}
+
+fn token_relayout_case(seed: u64, obs: &mut Obs) {
+    let mut r = Rng::new(seed);
+    let al = tok_alphabet();
+    let n = r.range(2, 9) as usize;
+    let mut toks: Vec<String> = Vec::new();
+    for _ in 0..n {
+        // half of the draws from the short punctuation/literal tail of the alphabet
+        let t = if r.bool() { r.pick(&al[al.len() - 60..]).clone() } else { r.pick(&al).clone() };
+        toks.push(t);
+    }
+    let a: String = toks.join(" ");
+    let mut b = String::new();
+    for (i, t) in toks.iter().enumerate() {
+        if i > 0 {
+            // a `/` token directly followed by a comment opener would become a line comment
+            if b.ends_with('/') {
+                b.push(' ');
+            }
+            b.push_str(*r.pick(TOK_SEPS_B));
+        }
+        b.push_str(t);
+    }
+    obs.fp.str(&a);
+    let cellkey = |what: &str| format!("token-relayout/{what}");
+    let r1 = guard(|| (tree_skeleton(&a), tree_skeleton(&b)));
+    let ((ska, ea), (skb, eb)) = match r1 {
+        Ok(x) => x,
+        Err(p) => {
+            obs.inconclusive(format!("parse panicked (C01): {}", p.site()));
+            return;
+        }
+    };
+    if ska != skb || (ea == 0) != (eb == 0) {
+        let first = ska.iter().zip(skb.iter()).position(|(x, y)| x != y).unwrap_or(ska.len().min(skb.len()));
+        let at = ska.get(first).cloned().unwrap_or_else(|| "end".into());
+        let at_kind = at.split(':').next().unwrap_or("").to_string();
+        obs.violate(
+            cellkey(&format!("parse-differs/{at_kind}")),
+            format!("{a:?} ({ea} syntax errors) vs {b:?} ({eb} syntax errors): trees differ at element {first}: {:?} vs {:?}", ska.get(first), skb.get(first)),
+        );
+        obs.done(true);
+        return;
+    }
+    let r2 = guard(|| {
+        let ra = oq3_semantics::syntax_to_semantics::parse_source_string(&a, Some("c17.qasm"));
+        let rb = oq3_semantics::syntax_to_semantics::parse_source_string(&b, Some("c17.qasm"));
+        let ka: Vec<String> = ra.semantic_errors().iter().map(|e| format!("{:?}", e.kind())).collect();
+        let kb: Vec<String> = rb.semantic_errors().iter().map(|e| format!("{:?}", e.kind())).collect();
+        (ra.any_syntax_errors(), rb.any_syntax_errors(), ra.program() == rb.program(), ra.symbol_table() == rb.symbol_table(), ka, kb)
+    });
+    match r2 {
+        Err(p) => obs.inconclusive(format!("analysis panicked (C03): {}", p.site())),
+        Ok((sa, sb, peq, teq, ka, kb)) => {
+            if sa != sb {
+                obs.violate(cellkey("syntax-error-status-differs"), format!("{a:?}: {sa} vs {b:?}: {sb}"));
+            } else if !peq || !teq || ka != kb {
+                obs.violate(cellkey("analysis-differs"), format!("{a:?} vs {b:?}: program equal {peq}, symbols equal {teq}, diagnostics {ka:?} vs {kb:?}"));
+            }
+            obs.class("token-relayout");
+            if !sa {
+                obs.count("token-relayout:clean-sequences");
+            }
+            obs.note = format!("{a:?} / {b:?}: {} tree elements, syntax errors {sa}", ska.len());
+            obs.done(true);
+        }
+    }
+}
+
 fn first_diff_stmt(a: &oq3_semantics::asg::Program, b: &oq3_semantics::asg::Program) -> String {
     for (i, (x, y)) in a.stmts().iter().zip(b.stmts()).enumerate() {
         if x != y {
@@ -434,11 +540,16 @@ impl Property for C17 {
         vec![
             Stream::new("random-programs", tier.pick(6_000, 300_000), false, move |i| format!("rand:{}", mix(&[seed, 0xC17, 1, i]))),
             Stream::new("random-programs-with-name-collisions", tier.pick(4_000, 200_000), false, move |i| format!("coll:{}", mix(&[seed, 0xC17, 2, i]))),
+            Stream::new("token-sequences-under-two-trivia-layouts", tier.pick(150_000, 5_000_000), false, move |i| format!("tok:{}", mix(&[seed, 0xC17, 3, i]))),
         ]
     }
     fn check(&self, input: &str, obs: &mut Obs) {
         let parts: Vec<&str> = input.split(':').collect();
         let seed: u64 = parts.get(1).and_then(|x| x.parse().ok()).unwrap_or(0);
+        if parts[0] == "tok" {
+            token_relayout_case(seed, obs);
+            return;
+        }
         let mut r = Rng::new(seed);
         let cfg = match parts[0] {
             "rand" => GenCfg { max_stmts: 7, ..GenCfg::semantic() },
@@ -488,6 +599,6 @@ impl Property for C17 {
         }
     }
     fn mandatory_classes(&self, _tier: Tier) -> Vec<&'static str> {
-        vec!["relayout", "rename", "append"]
+        vec!["relayout", "rename", "append", "token-relayout"]
     }
 }
